@@ -103,9 +103,7 @@ external("codemodder.dependency_management.setupcfg_writer.SetupCfgWriter.build_
          returns="list[str] | None", note="setup.cfg line surgery (string processing): used as a function of its arguments; out of the solver's reach")
 external("codemodder.diff.create_diff_and_linenums", params={"original_lines": "list[str]", "new_lines": "list[str]"}, returns="tuple[str, list[int]]", pure=True,
          ensures=["result[0] == lines_diff(original_lines, new_lines)"], note="diff text as create_diff; changed line numbers parsed from the hunks")
-external("codemodder.dependency_management.base_dependency_writer.DependencyWriter.build_changes", functional=True, reads=["requirement", "description"],
-         params={"self": _DW, "dependencies": "list[Dependency]", "line_number_strategy": "Opaque", "strategy_arg": "Opaque"},
-         returns="list[Change]", raises_any=True, note="one Change per dependency; may raise (line-number strategy indexing, Change validation)")
+# build_changes is executed inline (no contract): see below
 contract("codemodder.dependency_management.setupcfg_writer.SetupCfgWriter.add_to_file", props=["C04", "C14", "C03"],
          params={"self": "SetupCfgWriter", "dependencies": "list[Dependency]", "dry_run": "bool"}, returns="ChangeSet | None",
          modifies=["ghost:fs"], raises_any=True,
